@@ -521,11 +521,14 @@ def to_model(data_file: typing.IO, _config = None, progress_callback=lambda _: N
       if _EMPTY_RE.fullmatch(line):
         continue
 
-      if line.startswith("NOTE "):
+      # a line followed by the cue timings is a cue identifier, whatever it starts with
+      is_cue_id = line_index + 1 < len(lines) and "-->" in lines[line_index + 1]
+
+      if line.startswith("NOTE ") and not is_cue_id:
         state = _State.NOTE
         continue
 
-      if line.startswith("STYLE"):
+      if line.startswith("STYLE") and not is_cue_id:
         state = _State.STYLE
         continue
 
